@@ -2,7 +2,7 @@
 GENERATED import list — regenerate with `python3 tools/gen_all_imports.py` (from /verif); do not edit the
 imports by hand. `python3 tools/gen_all_imports.py --check` fails if a module on disk is not imported here.
 
-Imports every module of the libraries QmcModel, QmcProofs, QmcProps (169 modules), so that
+Imports every module of the libraries QmcModel, QmcProofs, QmcProps (175 modules), so that
 `lake build QmcAll` certifies that the whole development type-checks in ONE environment: no two modules
 declare the same name (Lean: "environment already contains …"). See design_notes/Cleanup.md.
 
@@ -81,6 +81,9 @@ import QmcProofs.FastOpsInstallList
 import QmcProofs.FastOpsInv
 import QmcProofs.FastOpsNth
 import QmcProofs.FastOpsOps
+import QmcProofs.FastOpsSubFill
+import QmcProofs.FastOpsSubFull
+import QmcProofs.FastOpsSubSweep
 import QmcProofs.FastOpsVar
 import QmcProofs.FastOpsVarAssembly
 import QmcProofs.FastOpsVarCanon
@@ -101,6 +104,7 @@ import QmcProofs.KernelInvarianceSlot
 import QmcProofs.KernelInvarianceSpace
 import QmcProofs.KernelInvarianceSweep
 import QmcProofs.LawCluster
+import QmcProofs.LawGeneric
 import QmcProofs.LawGood
 import QmcProofs.LawHeatBath
 import QmcProofs.LawRand
@@ -115,6 +119,7 @@ import QmcProofs.Loop
 import QmcProofs.LoopConsistent
 import QmcProofs.LoopNoPanic
 import QmcProofs.LoopPath
+import QmcProofs.LoopReverse
 import QmcProofs.LoopSingleSite
 import QmcProofs.PathSum
 import QmcProofs.Pool
@@ -164,6 +169,7 @@ import QmcProps.C01Capstone
 import QmcProps.C02
 import QmcProps.C03
 import QmcProps.C04
+import QmcProps.C04Capstone
 import QmcProps.C05
 import QmcProps.C06
 import QmcProps.C07
